@@ -1017,7 +1017,7 @@ def classify_stderr(err):
 
 def check_C13(tier, seed, replay=None):
     """the tool is total: no crash or hang on any grammar text and flag set"""
-    import subprocess, tempfile, hashlib, itertools
+    import subprocess, tempfile, hashlib, itertools, re
     from peg import pack_text, Gram
     run = Run("C13", tier, seed)
     rng = random.Random(seed)
@@ -1123,18 +1123,27 @@ def check_C13(tier, seed, replay=None):
                 rc, out, err = p.returncode, p.stdout, p.stderr.decode(errors="replace")
             except subprocess.TimeoutExpired:
                 rc, out, err, tmo = -1, b"", "", True
-        if "-debug" in fl:           # the front-end's own Debug trace goes to stdout before the generated code
-            idx = out.find(b"// Code generated by pigeon")
-            out = out[idx:] if idx >= 0 else (b"" if rc != 0 or "-x" in fl else out)
+        dbg = "-debug" in fl         # the front-end's own Debug trace goes to stdout before everything else
         diag = classify_stderr(err)
+        gen = out.find(b"// Code generated by pigeon")
+        if dbg and gen >= 0:
+            out = out[gen:]
+        elif dbg and b"usage: " in out and ("-h" in fl or "-help" in fl or len(args) > 1 or rc == 2):
+            out = out[out.rfind(b"usage: "):]
+        elif dbg and b"var g = &grammar" in out:
+            out = out[out.find(b"var g = &grammar"):]
+        elif dbg:
+            out = b""
         if out.strip() == b"":
             ok = "none"
         elif out.startswith(b"usage: "):
             ok = "usage"
         elif b"func Parse(filename string" in out and b"func (p *parser) parseZeroOrOneExpr" in out and rc == 0:
-            h = hashlib.sha1(out).hexdigest()
-            with open(os.path.join(outdir, h + ".go"), "wb") as f:
-                f.write(out)
+            if not dbg:
+                h = hashlib.sha1(out).hexdigest()
+                with open(os.path.join(outdir, h + ".go"), "wb") as f:
+                    # the package clause comes from the grammar's initializer; a grammar without one yields a fragment
+                    f.write(out if re.search(rb"^package \w+", out, re.M) else b"package fragment\n" + out)
             ok = "gofile"
         elif rc == 6:
             ok = "raw"
@@ -1143,7 +1152,7 @@ def check_C13(tier, seed, replay=None):
         else:
             ok = "incomplete"
         return dict(k=k, rc=rc, diag=diag, out=ok, panic=diag == "panic", timeout=tmo, h=("-h" in fl or "-help" in fl), x="-x" in fl,
-                    o="-o" in fl, nargs=len(args)), err[-600:]
+                    o="-o" in fl, nargs=len(args), norecover="-no-recover" in fl), err[-600:]
     res = P.parallel(one, jobs, workers=16)
     # every complete output must be syntactically valid Go
     fm = P.sh(["gofmt", "-l", "-e", outdir], check=False, timeout=900)
